@@ -248,7 +248,7 @@ pub fn run_cases(cases_path: &str, out_path: &str, bin: &str, workdir: &str) {
 		let cert_name = o.cert_name.clone().unwrap_or("cert".into());
 		let ca_name = o.ca_name.clone().unwrap_or("root-ca".into());
 		let mut obs = json!({"exit": exit, "panic": panic, "files": in_out, "newFiles": new_files, "stderr": stderr.chars().take(200).collect::<String>(),
-			"pemStrict": false, "eeKeyMatches": false, "caKeyMatches": false, "chainOpenssl": false, "chainWebpki": false, "caIsCa": false, "caKu": [], "eeSans": [],
+			"pemStrict": false, "eeKeyMatches": false, "caKeyMatches": false, "chainOpenssl": false, "chainWebpki": false, "chainPurposes": {"server": false, "client": false}, "caIsCa": false, "caKu": [], "eeSans": [],
 			"eeCn": "", "caCountry": "", "caOrg": "", "eeEku": [], "eeIsCa": true});
 		if exit == 0 {
 			let ee_c = read_pem(&outdir.join(format!("{}.pem", cert_name)));
@@ -264,6 +264,11 @@ pub fn run_cases(cases_path: &str, out_path: &str, bin: &str, workdir: &str) {
 					obs["caKeyMatches"] = json!(spki_of_pkcs8(&ca_k.1).map(|s| hex(&s)) == cav["spki"]["raw"].as_str().map(|s| s.to_string()));
 					let t = validate::unix_of(2030, 1, 1, 0);
 					obs["chainOpenssl"] = validate::openssl_chain(&ee_c.1, &[], &ca_c.1, t, "any")["accept"].clone();
+					// under each purpose that was asked for (a validator that is told the purpose also looks at the key usage of the leaf)
+					obs["chainPurposes"] = json!({
+						"server": !o.server || validate::openssl_chain(&ee_c.1, &[], &ca_c.1, t, "server")["accept"].as_bool().unwrap_or(false),
+						"client": !o.client || validate::openssl_chain(&ee_c.1, &[], &ca_c.1, t, "client")["accept"].as_bool().unwrap_or(false),
+					});
 					obs["chainWebpki"] = validate::webpki_chain(&ee_c.1, &[], &ca_c.1, t, if o.client && !o.server { "client" } else { "server" }, &[])["accept"].clone();
 					let find = |v: &Value, oid: &str| -> Option<Value> { v["exts"].as_array().unwrap().iter().find(|e| sval(e, "oid") == oid).cloned() };
 					if let Some(bc) = find(&cav, "2.5.29.19") {
